@@ -78,4 +78,44 @@ example :
     handleOfType "bk" (-1) 9 = [255, 255, 255, 255, 0, 0, 0, 0, 0, 0, 0, 0, 0, 0, 0, 0] := by
   decide +kernel
 
+/-! ### pending (blocked) samples: the handle is a function of the sample alone -/
+
+variable {M : Type}
+
+/-- C11 (pending samples): in one pass of `process_pending_write_samples` over ANY list of writers, the handle computed
+    for a writer's pending sample is exactly the handle a direct write of that sample gets — whatever the other writers
+    have pending -/
+theorem C11_pending_handle_independent (p : PendingModel Sample M Handle) (ws : List (Option Sample)) :
+    pendingHandles p ws = ws.map (Option.map (directHandle p)) := by
+  induction ws with
+  | nil => rfl
+  | cons w ws ih =>
+    cases w with
+    | none => simp [pendingHandles, ih]
+    | some s => simp [pendingHandles, ih, directHandle]
+
+/-- the seeded variant agrees only up to and including the FIRST writer with a pending sample … -/
+theorem C11_pending_shared_partial (p : PendingModel Sample M Handle) (n : Nat) (s : Sample)
+    (rest : List (Option Sample)) :
+    (pendingHandlesShared p (List.replicate n none ++ some s :: rest) []).take (n + 1) =
+      List.replicate n none ++ [some (directHandle p s)] := by
+  induction n with
+  | zero => simp [pendingHandlesShared, directHandle]
+  | succ n ih =>
+    simp only [List.replicate_succ, List.cons_append, pendingHandlesShared, List.take_succ_cons]
+    rw [ih]
+
+/-- … and gives the SECOND pending writer a handle built from both writers' key members: two writers of type `ki`
+    blocked on key 9 — the second sample's handle is 00000009 00000009 00… instead of 00000009 00… (what the replay
+    on the real code with seed_C11_c shows byte for byte); as coded both get 00000009 00… -/
+theorem C11_pending_shared_counterexample :
+    let t := [Member.mk "id" .i32 true, Member.mk "value" .i32 false]
+    let s1 : List Member × List Val := (t, [.int 9, .int 1])
+    let s2 : List Member × List Val := (t, [.int 9, .int 2])
+    pendingHandles pendingModelOf [some s1, none, some s2] =
+      [some [0, 0, 0, 9, 0, 0, 0, 0, 0, 0, 0, 0, 0, 0, 0, 0], none, some [0, 0, 0, 9, 0, 0, 0, 0, 0, 0, 0, 0, 0, 0, 0, 0]] ∧
+    pendingHandlesShared pendingModelOf [some s1, none, some s2] [] =
+      [some [0, 0, 0, 9, 0, 0, 0, 0, 0, 0, 0, 0, 0, 0, 0, 0], none, some [0, 0, 0, 9, 0, 0, 0, 9, 0, 0, 0, 0, 0, 0, 0, 0]] := by
+  decide +kernel
+
 end DustVerif.HandleE2E
